@@ -7,7 +7,10 @@
 //! known to the harness and the Python oracle only.
 use crate::exec;
 use futures::channel::oneshot;
-use leptos_server::{ArcLocalResource, ArcOnceResource, ArcResource, LocalResource, OnceResource, Resource};
+use leptos_server::{
+    codee::string::{FromToStringCodec, JsonSerdeCodec},
+    ArcLocalResource, ArcOnceResource, ArcResource, LocalResource, OnceResource, Resource,
+};
 use reactive_graph::{
     computed::{
         suspense::{LocalResourceNotifier, SuspenseContext},
@@ -15,9 +18,11 @@ use reactive_graph::{
     },
     effect::Effect,
     graph::{Source, ToAnySubscriber},
-    owner::{provide_context, Owner},
+    owner::{provide_context, FromLocal, LocalStorage, Owner},
     signal::ArcRwSignal,
-    traits::{Get, GetUntracked, Notify, Set, Track, Update, WithUntracked, Write},
+    traits::{
+        Get, GetUntracked, Notify, Set, Track, Update, WithUntracked, Write,
+    },
     transition::AsyncTransition,
 };
 use std::{
@@ -61,6 +66,140 @@ enum Node {
     /// the real leptos_server local resources (no `ready()`, no write access)
     Local(ArcLocalResource<i64>),
     LocalArena(LocalResource<i64>),
+    /// everything else, through the wrapper's own methods
+    Dyn(std::rc::Rc<dyn NodeT>),
+}
+
+/// a node driven through the methods of its own type (a leptos_server wrapper's `Track` /
+/// `ReadUntracked` / `IntoFuture` / `by_ref` / `map` / `refetch`; writes and `ready()` through its
+/// `Deref` to the async derived value)
+trait NodeT {
+    fn n_get_untracked(&self) -> Option<i64>;
+    fn n_get(&self) -> Option<i64>;
+    fn n_set(&self, v: i64, mode: i64);
+    fn n_notify(&self);
+    fn n_awaiter(&self, by_ref: bool) -> Pin<Box<dyn Future<Output = i64>>>;
+    fn n_loading(&self) -> bool;
+    fn n_refetch(&self);
+}
+
+fn is_pending<F: Future + Unpin>(mut f: F) -> bool {
+    let w = Waker::from(Arc::new(Count(AtomicUsize::new(0))));
+    let mut cx = Context::from_waker(&w);
+    Pin::new(&mut f).poll(&mut cx).is_pending()
+}
+
+/// the four ways of writing `Some(v)` into an async derived value
+macro_rules! write_modes {
+    ($d:expr, $v:expr, $mode:expr) => {{
+        let d = $d;
+        match $mode {
+            1 => {
+                *d.write_untracked() = Some($v);
+                d.notify()
+            }
+            2 => d.set(Some($v)),
+            3 => d.update(|x| *x = Some($v)),
+            _ => *d.write() = Some($v),
+        }
+    }};
+}
+
+macro_rules! resource_node {
+    ($ty:ty) => {
+        impl NodeT for $ty {
+            fn n_get_untracked(&self) -> Option<i64> {
+                GetUntracked::get_untracked(self)
+            }
+            fn n_get(&self) -> Option<i64> {
+                // `map` reads reactively; it must agree with `get`
+                let a = self.map(|v| *v);
+                let b = Get::get(self);
+                assert_eq!(a, b, "Resource::map and Resource::get disagree");
+                a
+            }
+            fn n_set(&self, v: i64, mode: i64) {
+                write_modes!(std::ops::Deref::deref(self), v, mode)
+            }
+            fn n_notify(&self) {
+                std::ops::Deref::deref(self).notify()
+            }
+            fn n_awaiter(&self, by_ref: bool) -> Pin<Box<dyn Future<Output = i64>>> {
+                if by_ref {
+                    let f = self.by_ref();
+                    Box::pin(async move { *f.await })
+                } else {
+                    Box::pin(self.clone().into_future())
+                }
+            }
+            fn n_loading(&self) -> bool {
+                is_pending(std::ops::Deref::deref(self).ready())
+            }
+            fn n_refetch(&self) {
+                <$ty>::refetch(self)
+            }
+        }
+    };
+}
+resource_node!(ArcResource<i64, JsonSerdeCodec>);
+resource_node!(Resource<i64, JsonSerdeCodec>);
+resource_node!(ArcResource<i64, FromToStringCodec>);
+resource_node!(Resource<i64, FromToStringCodec>);
+
+macro_rules! once_node {
+    ($ty:ty) => {
+        impl NodeT for $ty {
+            fn n_get_untracked(&self) -> Option<i64> {
+                GetUntracked::get_untracked(self)
+            }
+            fn n_get(&self) -> Option<i64> {
+                let a = self.map(|v| *v);
+                let b = Get::get(self);
+                assert_eq!(a, b, "OnceResource::map and OnceResource::get disagree");
+                a
+            }
+            fn n_set(&self, _: i64, _: i64) {}
+            fn n_notify(&self) {}
+            fn n_awaiter(&self, _: bool) -> Pin<Box<dyn Future<Output = i64>>> {
+                Box::pin(self.clone().into_future())
+            }
+            fn n_loading(&self) -> bool {
+                is_pending(self.ready())
+            }
+            fn n_refetch(&self) {}
+        }
+    };
+}
+once_node!(ArcOnceResource<i64, JsonSerdeCodec>);
+once_node!(OnceResource<i64, JsonSerdeCodec>);
+once_node!(ArcOnceResource<i64, FromToStringCodec>);
+once_node!(OnceResource<i64, FromToStringCodec>);
+
+impl NodeT for AsyncDerived<i64, LocalStorage> {
+    fn n_get_untracked(&self) -> Option<i64> {
+        GetUntracked::get_untracked(self)
+    }
+    fn n_get(&self) -> Option<i64> {
+        Get::get(self)
+    }
+    fn n_set(&self, v: i64, mode: i64) {
+        write_modes!(self, v, mode)
+    }
+    fn n_notify(&self) {
+        Notify::notify(self)
+    }
+    fn n_awaiter(&self, by_ref: bool) -> Pin<Box<dyn Future<Output = i64>>> {
+        if by_ref {
+            let f = self.by_ref();
+            Box::pin(async move { *f.await })
+        } else {
+            Box::pin(self.into_future())
+        }
+    }
+    fn n_loading(&self) -> bool {
+        is_pending(self.ready())
+    }
+    fn n_refetch(&self) {}
 }
 
 impl Node {
@@ -72,6 +211,7 @@ impl Node {
             Node::OnceArena(n) => n.get_untracked(),
             Node::Local(n) => n.get_untracked(),
             Node::LocalArena(n) => n.get_untracked(),
+            Node::Dyn(n) => n.n_get_untracked(),
         }
     }
     fn get(&self) -> Option<i64> {
@@ -80,14 +220,21 @@ impl Node {
             Node::Arena(n) => n.get(),
             Node::Once(n) => n.get(),
             Node::OnceArena(n) => n.get(),
-            Node::Local(n) => n.get(),
+            // a local resource's `map` reads reactively too
+            Node::Local(n) => {
+                let a = n.get();
+                assert_eq!(a, n.map(|v| *v), "LocalResource::map and get disagree");
+                a
+            }
             Node::LocalArena(n) => n.get(),
+            Node::Dyn(n) => n.n_get(),
         }
     }
-    fn set(&self, v: i64) {
+    fn set(&self, v: i64, mode: i64) {
         match self {
-            Node::Arc(n) => *n.write() = Some(v),
-            Node::Arena(n) => *n.write() = Some(v),
+            Node::Arc(n) => write_modes!(n, v, mode),
+            Node::Arena(n) => write_modes!(n, v, mode),
+            Node::Dyn(n) => n.n_set(v, mode),
             _ => {}
         }
     }
@@ -95,11 +242,25 @@ impl Node {
         match self {
             Node::Arc(n) => n.notify(),
             Node::Arena(n) => n.notify(),
+            Node::Dyn(n) => n.n_notify(),
             _ => {}
         }
     }
     fn awaiter(&self) -> Pin<Box<dyn Future<Output = i64>>> {
+        self.awaiter_mode(false)
+    }
+    /// `by_ref`: await through `by_ref()` (a guard to the value) where the type has it
+    fn awaiter_mode(&self, by_ref: bool) -> Pin<Box<dyn Future<Output = i64>>> {
         match self {
+            Node::Arc(n) if by_ref => {
+                let f = n.by_ref();
+                Box::pin(async move { *f.await })
+            }
+            Node::Arena(n) if by_ref => {
+                let f = n.by_ref();
+                Box::pin(async move { *f.await })
+            }
+            Node::Dyn(n) => n.n_awaiter(by_ref),
             Node::Arc(n) => Box::pin(n.clone().into_future()),
             Node::Arena(n) => Box::pin(n.into_future()),
             Node::Once(n) => Box::pin(n.clone().into_future()),
@@ -123,6 +284,7 @@ impl Node {
                 let mut a = self.awaiter();
                 return a.as_mut().poll(&mut cx).is_pending();
             }
+            Node::Dyn(n) => return n.n_loading(),
         };
         Pin::new(&mut f).poll(&mut cx).is_pending()
     }
@@ -376,6 +538,7 @@ fn run_in(c: &Sexp) -> Sexp {
         Arena(Resource<i64>),
         Local(ArcLocalResource<i64>),
         LocalArena(LocalResource<i64>),
+        Dyn(std::rc::Rc<dyn NodeT>),
     }
     let mut resource: Option<Res> = None;
     // the "Suspense boundary": an owner that provides a SuspenseContext
@@ -387,7 +550,7 @@ fn run_in(c: &Sexp) -> Sexp {
     // … and, for local resources, the notifier a Suspense provides: told (once) that a
     // local-only resource was read under it
     let (local_tx, mut local_rx) = oneshot::channel::<()>();
-    let local = shape == 0 && wrap >= 3;
+    let local = shape == 0 && (wrap == 3 || wrap == 4);
     if local {
         boundary.with(|| provide_context(LocalResourceNotifier::from(local_tx)));
     }
@@ -405,6 +568,29 @@ fn run_in(c: &Sexp) -> Sexp {
                 let r = LocalResource::new(f);
                 resource = Some(Res::LocalArena(r));
                 Node::LocalArena(r)
+            } else if let Some(v0) = initial {
+                // the `_with_initial` constructors: the value is there at once, the first load
+                // still runs (unlike a hydrated resource)
+                match wrap {
+                    1 => Node::Arena(AsyncDerived::new_with_initial(Some(v0), f)),
+                    2 => Node::Arc(ArcAsyncDerived::new_unsync_with_initial(Some(v0), move || {
+                        rf.track();
+                        f()
+                    })),
+                    5 => Node::Dyn(std::rc::Rc::new(
+                        AsyncDerived::<i64, LocalStorage>::new_unsync_with_initial(Some(v0), f),
+                    )),
+                    _ => Node::Arc(ArcAsyncDerived::new_with_initial(Some(v0), f)),
+                }
+            } else if wrap == 5 {
+                // arena handles in LocalStorage / made by conversion from the Arc type
+                Node::Dyn(std::rc::Rc::new(AsyncDerived::<i64, LocalStorage>::new_unsync(f)))
+            } else if wrap == 6 {
+                Node::Dyn(std::rc::Rc::new(AsyncDerived::<i64, LocalStorage>::from_local(
+                    ArcAsyncDerived::new_unsync(f),
+                )))
+            } else if wrap == 7 {
+                Node::Arena(AsyncDerived::from(ArcAsyncDerived::new(f)))
             } else if wrap == 1 {
                 Node::Arena(AsyncDerived::new(f))
             } else if wrap == 2 {
@@ -421,33 +607,66 @@ fn run_in(c: &Sexp) -> Sexp {
             // the real resource constructors of leptos_server
             let src = move || s0.get().div_euclid(2);
             let fetcher = move |x: i64| mk_fut(fetch(x, 0));
-            if wrap == 1 {
-                let r = Resource::new(src, fetcher);
-                resource = Some(Res::Arena(r));
-                Node::Arena(*std::ops::Deref::deref(&r))
-            } else {
-                let r = ArcResource::new(src, fetcher);
-                let n = Node::Arc(std::ops::Deref::deref(&r).clone());
-                resource = Some(Res::Arc(r));
-                n
+            macro_rules! own {
+                ($r:expr) => {{
+                    let r = std::rc::Rc::new($r);
+                    resource = Some(Res::Dyn(r.clone()));
+                    Node::Dyn(r)
+                }};
+            }
+            match wrap {
+                // wrap 0 / 1: the async derived value inside the wrapper (its Deref target)
+                1 => {
+                    let r = Resource::new(src, fetcher);
+                    resource = Some(Res::Arena(r));
+                    Node::Arena(*std::ops::Deref::deref(&r))
+                }
+                0 => {
+                    let r = ArcResource::new(src, fetcher);
+                    let n = Node::Arc(std::ops::Deref::deref(&r).clone());
+                    resource = Some(Res::Arc(r));
+                    n
+                }
+                // from here on every constructor, driven through the wrapper's own impls
+                2 => own!(ArcResource::new(src, fetcher)),
+                3 => own!(Resource::new(src, fetcher)),
+                4 => own!(ArcResource::new_blocking(src, fetcher)),
+                5 => own!(Resource::new_blocking(src, fetcher)),
+                6 => own!(ArcResource::new_str(src, fetcher)),
+                7 => own!(Resource::new_str(src, fetcher)),
+                8 => own!(ArcResource::new_str_blocking(src, fetcher)),
+                9 => own!(Resource::new_str_blocking(src, fetcher)),
+                10 => own!(ArcResource::<i64, JsonSerdeCodec>::new_with_options(src, fetcher, false)),
+                11 => own!(Resource::<i64, FromToStringCodec>::new_with_options(src, fetcher, true)),
+                12 => own!(ArcResource::from(Resource::new(src, fetcher))),
+                _ => own!(Resource::from(ArcResource::new_str(src, fetcher))),
             }
         }
         5 => {
             let fut = mk_fut(fetch(7, 7));
-            if wrap == 1 {
-                Node::OnceArena(OnceResource::new(fut))
-            } else {
-                Node::Once(ArcOnceResource::new(fut))
+            let d = |n: std::rc::Rc<dyn NodeT>| Node::Dyn(n);
+            match wrap {
+                1 => Node::OnceArena(OnceResource::new(fut)),
+                0 => Node::Once(ArcOnceResource::new(fut)),
+                2 => d(std::rc::Rc::new(ArcOnceResource::new_blocking(fut))),
+                3 => d(std::rc::Rc::new(OnceResource::new_blocking(fut))),
+                4 => d(std::rc::Rc::new(ArcOnceResource::new_str(fut))),
+                5 => d(std::rc::Rc::new(OnceResource::new_str(fut))),
+                6 => d(std::rc::Rc::new(ArcOnceResource::new_str_blocking(fut))),
+                7 => d(std::rc::Rc::new(OnceResource::new_str_blocking(fut))),
+                8 => d(std::rc::Rc::new(ArcOnceResource::<i64, JsonSerdeCodec>::new_with_options(fut, false))),
+                _ => d(std::rc::Rc::new(OnceResource::<i64, FromToStringCodec>::new_with_options(fut, true))),
             }
         }
         1 => {
             let ma = ArcMemo::new(move |_| s0.get().div_euclid(2));
             let mb = ArcMemo::new(move |_| s1.get());
             let f = move || mk_fut(fetch(ma.get(), mb.get()));
-            if wrap == 1 {
-                Node::Arena(AsyncDerived::new(f))
-            } else {
-                Node::Arc(ArcAsyncDerived::new(f))
+            match (wrap, initial) {
+                (1, None) => Node::Arena(AsyncDerived::new(f)),
+                (_, None) => Node::Arc(ArcAsyncDerived::new(f)),
+                (1, v0) => Node::Arena(AsyncDerived::new_with_initial(v0, f)),
+                (_, v0) => Node::Arc(ArcAsyncDerived::new_with_initial(v0, f)),
             }
         }
         2 => {
@@ -562,9 +781,10 @@ fn run_in(c: &Sexp) -> Sexp {
                 Some(Res::Arena(r)) => r.refetch(),
                 Some(Res::Local(r)) => r.refetch(),
                 Some(Res::LocalArena(r)) => r.refetch(),
+                Some(Res::Dyn(r)) => r.n_refetch(),
                 None => refetch.update(|n| *n += 1),
             },
-            2 => node.set(a),
+            2 => node.set(a, ev.at(2).num()),
             3 => node.notify(),
             4 => {
                 if a >= 0 {
@@ -580,10 +800,12 @@ fn run_in(c: &Sexp) -> Sexp {
             7 => {
                 let sus = a != 0;
                 read_under_boundary |= sus;
+                // (7 sus 1): through by_ref(), which does not talk to a Suspense boundary
+                let by_ref = ev.at(2).num() == 1 && !sus;
                 let fut = if sus {
                     boundary.with(|| node.awaiter())
                 } else {
-                    node.awaiter()
+                    node.awaiter_mode(by_ref)
                 };
                 awaiters.push(Awaiter {
                     fut: Some(fut),
